@@ -91,9 +91,14 @@ theorem inv_sample (nb : Int) (perm : List Nat) (b s : Bag) (h : sample nb perm 
   · simp only [] at h
     have := inv_addAllIgnore (((perm.take nb.toNat).filterMap fun i => b.rows[i]?).map fun r => (r.name, r.seq))
       (newBag b.alphabet) (inv_newBag _)
-    split at h <;> (simp only [Option.some.injEq] at h; subst h)
-    · exact this.congr rfl rfl rfl
-    · exact this
+    split at h
+    · unfold seqBagToAlignment at h
+      split at h
+      · simp at h
+      · simp only [Option.some.injEq] at h; subst h
+        exact this.congr rfl rfl rfl
+    · simp only [Option.some.injEq] at h; subst h
+      exact this
 
 theorem inv_replaceBag (o n : Seq) (b : Bag) (h : Inv b) : Inv (replaceBag o n b).1 := inv_mapSeqs _ b h
 
